@@ -630,8 +630,9 @@ pub fn clone_indep<P: PType>(st: &MapSt<P>, cx: &Cx) -> (Vec<Viol>, u64) {
     let mut n = 0u64;
     let ops = <PrefixMap<P, u32> as Sut>::enumerate_ops(cx.uni, &st.model, crate::ops::Alphabet::Full, 0, false);
     let same = |a: &prefix_trie::verif::ArenaDump, b: &prefix_trie::verif::ArenaDump| a.arena_len == b.arena_len && a.free == b.free && a.count == b.count && a.slots == b.slots;
-    let before = st.map.verif_dump();
+    // (the dump of `orig` itself is the reference: a clone may lay out its arena differently)
     let orig = st.map.clone();
+    let before = orig.verif_dump();
     for op in ops {
         let mut c = orig.clone();
         let mut model = st.model.clone();
